@@ -384,9 +384,9 @@ func main() {
 		"TryChangeView/TryChangeViewV1 (strict 'after' gate in front of the same computation) are not part of the verdict: at an instant exactly on a boundary the gate defers by design",
 		"elapsed times are non-negative and below 2^53 ns")
 	finish(evid.Coverage{
-		"evaluations":         ct.evals + ct.chains,
-		"distinct_nontrivial": ct.bothAdvanced,
-		"rule": fmt.Sprintf("versions {ChangeView, ChangeViewV1} x arbiter counts %v x start offsets 0..3n x instants {1 s grid 0..%d s} ∪ {b-1ns,b,b+1ns for every boundary b of the first 2n+3 views under the one-shot and under the evaluate-at-every-boundary schedule, located by bisection on the real code}; polling schedules: one evaluation at T vs one intermediate evaluation at every earlier instant (thorough: also two intermediate evaluations over boundary instants + 7 s grid, first 150). non-trivial = chained schedules (all distinct) in which the intermediate evaluation moved the offset and the final evaluation moved it again", ns, gridS),
+		"evaluations":           ct.evals + ct.chains,
+		"distinct_nontrivial":   ct.bothAdvanced,
+		"rule":                  fmt.Sprintf("versions {ChangeView, ChangeViewV1} x arbiter counts %v x start offsets 0..3n x instants {1 s grid 0..%d s} ∪ {b-1ns,b,b+1ns for every boundary b of the first 2n+3 views under the one-shot and under the evaluate-at-every-boundary schedule, located by bisection on the real code}; polling schedules: one evaluation at T vs one intermediate evaluation at every earlier instant (thorough: also two intermediate evaluations over boundary instants + 7 s grid, first 150). non-trivial = chained schedules (all distinct) in which the intermediate evaluation moved the offset and the final evaluation moved it again", ns, gridS),
 		"exhaustive":            true,
 		"jobs":                  len(jobs),
 		"instants_total":        timePoints,
